@@ -138,14 +138,17 @@ k = 'spqlios-offsets'
 if want(k):
     spq = os.path.join(REPO, 'src', 'libtfhe', 'fft_processors', 'spqlios')
     s5 = os.path.join(W, 'spq.cpp')
-    open(s5, 'w').write('#include <cstdio>\n#include <cstddef>\n#include "lagrangehalfc_impl.h"\nint main(){printf("%zu %zu %zu\\n",offsetof(LagrangeHalfCPolynomial_IMPL,coefsC),offsetof(LagrangeHalfCPolynomial_IMPL,proc),offsetof(FFT_Processor_Spqlios,Ns2));}\n')
+    asm = ''.join(open(os.path.join(spq, f)).read() for f in ('lagrangehalfc_impl_fma.s', 'lagrangehalfc_impl_avx.s'))
+    used = set(re.findall(r'movq\s+(\d*)\(%rdi\),\s*%rax\s*/\* rax: proc', asm)) , set(re.findall(r'movl\s+(\d+)\(%rax\),\s*%ecx\s*/\* ecx: Ns2', asm)), set(re.findall(r'movq\s+(\d*)\(%rdi\),\s*%r8\s', asm))
+    exp_proc, exp_ns2, exp_coefs = used
+    # only the fields the assembly really addresses are probed (private structures are free to change otherwise)
+    f_proc = 'offsetof(LagrangeHalfCPolynomial_IMPL,proc)' if exp_proc else '(size_t)0'
+    f_ns2 = 'offsetof(FFT_Processor_Spqlios,Ns2)' if exp_ns2 else '(size_t)0'
+    open(s5, 'w').write('#include <cstdio>\n#include <cstddef>\n#include "lagrangehalfc_impl.h"\nint main(){printf("%%zu %%zu %%zu\\n",offsetof(LagrangeHalfCPolynomial_IMPL,coefsC),%s,%s);}\n' % (f_proc, f_ns2))
     r = sh(['g++', '-std=gnu++11', '-Wno-invalid-offsetof', '-I' + INC, '-I' + spq, s5, '-o', os.path.join(W, 'spq')])
     if r.returncode: viol(k, 'cannot compile the offset probe: ' + r.stdout[-400:])
     else:
         o = sh([os.path.join(W, 'spq')]).stdout.split(); case(k)
-        asm = ''.join(open(os.path.join(spq, f)).read() for f in ('lagrangehalfc_impl_fma.s', 'lagrangehalfc_impl_avx.s'))
-        used = set(re.findall(r'movq\s+(\d*)\(%rdi\),\s*%rax\s*/\* rax: proc', asm)) , set(re.findall(r'movl\s+(\d+)\(%rax\),\s*%ecx\s*/\* ecx: Ns2', asm)), set(re.findall(r'movq\s+(\d*)\(%rdi\),\s*%r8\s', asm))
-        exp_proc, exp_ns2, exp_coefs = used
         norm = lambda st: set(x if x else '0' for x in st)
         if norm(exp_proc) - {o[1]} or norm(exp_ns2) - {o[2]} or norm(exp_coefs) - {o[0]}:
             viol(k, 'assembly addresses proc/Ns2/coefsC at %s/%s/%s but the structures place them at %s/%s/%s' % (sorted(norm(exp_proc)), sorted(norm(exp_ns2)), sorted(norm(exp_coefs)), o[1], o[2], o[0]))
